@@ -106,7 +106,8 @@ fn run_path(mode: &str, parts: &[String], choices: &[usize], faults: bool, max_n
         for (k, p) in parts.iter().enumerate() {
             let st = match p.as_str() { "pend" => PStat::Pend, "fail" => PStat::Failed(203), _ => PStat::Done(pre.clone()) };
             // parts of earlier attempts live in different sendpay groups (0 and 2; the pay command of this run uses group 1)
-            hn.parts.push(Part { groupid: if k % 2 == 0 { 0 } else { 2 }, partid: k as u64, status: st });
+            // parts of two earlier groups; the SAME partid occurs in both groups (a part is identified by the pair)
+            hn.parts.push(Part { groupid: if k % 2 == 0 { 0 } else { 2 }, partid: (k / 2) as u64, status: st });
         }
     }
     let rt = tokio::runtime::Builder::new_current_thread().enable_time().start_paused(true).build().unwrap();
